@@ -309,6 +309,47 @@ func runC16(c *Ctx) {
 			c.Disagree(Finding{Desc: fmt.Sprintf("malformed review (%s): HTTP status %d, model %d", m.name, resp.StatusCode, int(want)), Input: in})
 		}
 	}
+	// the same small malformed reviews again, each sent straight after a well-formed one (same client, same connection, and
+	// once more from a fresh connection): what the handler did for the previous review must not make it accept this one
+	keep := &http.Client{}
+	for round := 0; round < 6; round++ {
+		for i, m := range malformed {
+			if len(m.body) > 4096 {
+				continue
+			}
+			cl := keep
+			if round%2 == 1 {
+				cl = &http.Client{}
+			}
+			prev := cases[(round+i)%len(cases)][i%len(cases[0])]
+			if resp, err := cl.Post(ts.URL, "application/json", bytes.NewReader(prev.body())); err == nil {
+				io.Copy(io.Discard, resp.Body)
+				resp.Body.Close()
+			}
+			req, _ := http.NewRequest("POST", ts.URL, bytes.NewReader(m.body))
+			if m.ctype != "" {
+				req.Header.Set("Content-Type", m.ctype)
+			}
+			resp, err := cl.Do(req)
+			c.Eval(2)
+			c.Tag("malformed.afterGood")
+			in := J{"class": m.name, "contentType": m.ctype, "body": string(m.body), "sentAfter": J{"uid": prev.uid, "review": json.RawMessage(prev.body())}}
+			if err != nil {
+				c.Violate(Finding{Desc: fmt.Sprintf("malformed review (%s) sent after a well-formed one: no HTTP answer at all: %v", m.name, err), Key: "malformed-no-status:" + m.name, Input: in})
+				continue
+			}
+			b, _ := io.ReadAll(resp.Body)
+			resp.Body.Close()
+			var rv admissionv1.AdmissionReview
+			allowed := json.Unmarshal(b, &rv) == nil && rv.Response != nil && rv.Response.Allowed
+			want, _ := outs[i]["status"].(float64)
+			if resp.StatusCode < 400 || allowed {
+				c.Violate(Finding{Desc: fmt.Sprintf("malformed review (%s) sent after a well-formed one answered with status %d allowed=%v", m.name, resp.StatusCode, allowed), Key: "malformed-accepted-after-good:" + m.name, Input: in})
+			} else if int(want) != resp.StatusCode {
+				c.Disagree(Finding{Desc: fmt.Sprintf("malformed review (%s) sent after a well-formed one: HTTP status %d, model %d", m.name, resp.StatusCode, int(want)), Input: in})
+			}
+		}
+	}
 	// just under the limit the same padded review is well-formed and must be answered like the unpadded one
 	for _, streamed := range []bool{false, true} {
 		var rd io.Reader = bytes.NewReader(padded(3*1024*1024 - 1))
